@@ -165,10 +165,11 @@ theorem merge_idem (a : QDict) (ha : keysDistinct a = true) (k : Str) :
     lookupExact k (mergeQualifiers a a) = (lookupExact k a).map fun vs => sortStrs (setUpdate [] vs) :=
   merge_self_lookup a ha k
 
-/-- T5: locus-tag grouping (the stable sort by tag + `itertools.groupby` + the per-run loop) — for EVERY record:
-    it raises exactly when some tag carries two gene features; otherwise there is one group per distinct tag, in
-    increasing tag order, holding that tag's gene feature, all its CDS features and all its transcript features
-    (one arbitrary transcript when the tag has several transcripts AND several CDSs). -/
+/-- T5 (the code as it is, 48a0909): locus-tag grouping (the stable sort by tag + `itertools.groupby` + the per-run
+    loop) — for EVERY record: it raises exactly when some tag carries two gene features; otherwise there is one
+    group per distinct tag that has a gene, transcript or CDS feature (a tag carried only by features of unknown
+    type yields no group), in increasing tag order, holding that tag's gene feature, all its CDS features and all
+    its transcript features (one arbitrary transcript when the tag has several transcripts AND several CDSs). -/
 theorem group_spec (fs : List Feat) : okGroup fs (ansQ (groupByLocusTag fs)) = true :=
   group_ok fs
 
@@ -181,6 +182,13 @@ theorem group_order_independent (fs fs' : List Feat) (hp : fs.Perm fs')
     (ansQ (groupByLocusTag fs) = none ∧ ansQ (groupByLocusTag fs') = none) ∨
     (∃ gs gs', groupByLocusTag fs = .ok gs ∧ groupByLocusTag fs' = .ok gs' ∧ GroupsEquiv gs gs') :=
   group_perm hp hc
+
+/-- regression fact: before 48a0909 a run holding only a feature of unknown type (e.g. a lone `exon`) yielded an
+    empty group (on which `_convert_seqfeature_to_gene` later raised IndexError); the code as it is skips it. -/
+theorem empty_group_before_fix :
+    ansQ (processRunsBefore [("a".toList, [⟨"a".toList, .other, 0⟩])]) = some [⟨"a".toList, none, [], []⟩] ∧
+    ansQ (processRuns [("a".toList, [⟨"a".toList, .other, 0⟩])]) = some [] := by
+  decide +kernel
 
 /-- T6 (the code as it is, `re.fullmatch` since 245297c): `filter_and_sort_qualifiers` drops exactly the reserved
     BioCantor / GFF3 keys, keeps the others in order with sorted values, and reports an empty result as `None`. -/
